@@ -334,3 +334,31 @@ Print Assumptions C03_mmap_atomic_load.
 Print Assumptions C03_mmap_read_volatile_from_refines_flat.
 Print Assumptions C03_mmap_write_volatile_to_refines_flat.
 Print Assumptions C03_mmap_no_fuel.
+
+(* ---- the PUBLIC try_access with an arbitrary (scripted) callback: suite C03walk ---- *)
+From VM Require Import Spec.C03walk Suite.C03walk Proofs.C03walk.
+
+(* for every layout (any implementor), count, address and every script of callback answers of any length - honest,
+   short, stalling, failing or over-reporting -, the call log and result of the transcribed try_access satisfy the
+   walk checker *)
+Theorem C03walk_model_ok : forall c, wf_walk c -> ok_C03walk c (run_C03walk c) = true.
+Proof. exact C03walk_model_ok_lemma. Qed.
+
+(* Prop reading: the walk never panics or runs out of fuel, and every chunk it offers to the callback sits at the
+   exact address addr + K (K = the sum of the counts reported before; never a value wrapped around 2^64), in the
+   region that owns this address, at that region's own offset *)
+Theorem C03walk_never_wraps : forall c, wf_walk c ->
+  wo_k (run_C03walk c) <> 3 /\ calls_exact (w_L c) (w_addr c) 0 (wo_calls (run_C03walk c)).
+Proof. exact C03walk_never_wraps_lemma. Qed.
+
+(* non-vacuity: a region at the top of the address space and one at 0; the callback over-reports so that the exact
+   sum passes 2^64: two calls, then GuestAddressOverflow (class 7) - nothing is offered at the wrapped address 0x20 *)
+Example C03walk_nonvacuous :
+  let c := {| w_mode := Debug; w_L := [(W64 - 8, 8); (0, 64)]; w_count := W64 - 1; w_addr := W64 - 8;
+              w_script := [(3, 4); (2, 36)] |} in
+  wf_layout_gen (w_L c) /\ w_count c < W64 /\ w_addr c < W64 /\
+  List.length (wo_calls (run_C03walk c)) = 2%nat /\ wo_k (run_C03walk c) = 2 /\ wo_v (run_C03walk c) = 7.
+Proof. exact walk_nonvacuous_lemma. Qed.
+
+Print Assumptions C03walk_model_ok.
+Print Assumptions C03walk_never_wraps.
